@@ -243,11 +243,16 @@ func (m SizeMetrics) GetByUnit(unit SizeUnit) int {
 
 // EstimateTokens estimates token count using the configured ratio
 func (sc *SizeCalculator) EstimateTokens(text string) int {
+	return int(float64(len(text)) * sc.tokensPerChar())
+}
+
+// tokensPerChar returns the configured ratio, or the default when it is unset
+func (sc *SizeCalculator) tokensPerChar() float64 {
 	ratio := sc.config.TokensPerChar
 	if ratio <= 0 {
 		ratio = 0.25
 	}
-	return int(float64(len(text)) * ratio)
+	return ratio
 }
 
 // IsWithinTarget checks if size is within target range
@@ -392,7 +397,7 @@ func (sc *SizeCalculator) FindSplitPointAt(text string, boundaries []Boundary, t
 	case SizeUnitCharacters:
 		targetPos = targetSize
 	case SizeUnitTokens:
-		targetPos = int(float64(targetSize) / sc.config.TokensPerChar)
+		targetPos = int(float64(targetSize) / sc.tokensPerChar())
 	case SizeUnitWords:
 		targetPos = targetSize * 6 // Rough estimate: 6 chars per word
 	case SizeUnitSentences:
